@@ -108,7 +108,12 @@ func c26Run(cs *Case) c26obs {
 			res := make([]*ua.TransferResult, len(req.SubscriptionIDs))
 			for i := range res {
 				res[i] = &ua.TransferResult{AvailableSequenceNumbers: []uint32{}}
-				if cs.P["transfer_ok"] == 0 {
+				if cs.P["mixed"] == 1 {
+					// per subscription: bit (id-1) of tinvalid
+					if id := req.SubscriptionIDs[i]; id >= 1 && id <= 8 && cs.P["tinvalid"]&(1<<(id-1)) != 0 {
+						res[i].StatusCode = ua.StatusBadSubscriptionIDInvalid
+					}
+				} else if cs.P["transfer_ok"] == 0 {
 					res[i].StatusCode = ua.StatusBadSubscriptionIDInvalid
 				}
 			}
@@ -117,6 +122,14 @@ func c26Run(cs *Case) c26obs {
 			republishes++
 			if cs.P["republish_ok"] == 0 {
 				return scriptsrv.Fault(r, ua.StatusBadSubscriptionIDInvalid), true
+			}
+			if cs.P["mixed"] == 1 {
+				if req.SubscriptionID == 1 && cs.P["republish_msgs"] == 1 && ob.Republished == 0 {
+					ob.Republished++
+					return &ua.RepublishResponse{ResponseHeader: hdr(), NotificationMessage: &ua.NotificationMessage{SequenceNumber: req.RetransmitSequenceNumber, PublishTime: time.Now(),
+						NotificationData: []*ua.ExtensionObject{dataChange()}}}, true
+				}
+				return scriptsrv.Fault(r, ua.StatusBadMessageNotAvailable), true
 			}
 			if republishes == 1 && cs.P["republish_msgs"] == 1 {
 				ob.Republished++
@@ -136,6 +149,22 @@ func c26Run(cs *Case) c26obs {
 				ob.PubsAfter++
 			}
 			if cs.S["kind"] != "acks" {
+				if cs.P["mixed"] == 1 {
+					// every PublishRequest is recorded; the first one is answered with a data notification of
+					// subscription 1 (sequence number 1), all later ones are withheld: the acknowledgement stays queued
+					ob.Acks = append(ob.Acks, al)
+					pubs++
+					if pubs == 1 {
+						resp := &ua.PublishResponse{ResponseHeader: hdr(), SubscriptionID: 1, AvailableSequenceNumbers: []uint32{},
+							NotificationMessage: &ua.NotificationMessage{SequenceNumber: 1, PublishTime: time.Now(), NotificationData: []*ua.ExtensionObject{dataChange()}},
+							Results:             []ua.StatusCode{}, DiagnosticInfos: []*ua.DiagnosticInfo{}}
+						go func() {
+							<-readyCh
+							c.Send(reqID, resp)
+						}()
+					}
+					return nil, true
+				}
 				if phase >= 1 && c.ID > connAtDrop {
 					ob.Acks = append(ob.Acks, al)
 				}
@@ -203,6 +232,9 @@ func c26Run(cs *Case) c26obs {
 	nsubs := 2
 	if cs.S["kind"] == "reconnect" {
 		nsubs = 1
+		if cs.P["nsubs"] > 0 {
+			nsubs = cs.P["nsubs"]
+		}
 	}
 	for i := 0; i < nsubs; i++ {
 		sub, err := c.Subscribe(ctx, nil, notifs)
@@ -235,6 +267,19 @@ func c26Run(cs *Case) c26obs {
 			time.Sleep(20 * time.Millisecond)
 		}
 	} else {
+		if cs.P["mixed"] == 1 {
+			// wait until the acknowledgement of the notification is on its way (second PublishRequest, withheld)
+			deadline := time.Now().Add(15 * time.Second)
+			for time.Now().Before(deadline) {
+				mu.Lock()
+				n := len(ob.Acks)
+				mu.Unlock()
+				if n >= 2 {
+					break
+				}
+				time.Sleep(20 * time.Millisecond)
+			}
+		}
 		rounds := cs.P["rounds"]
 		if rounds < 1 {
 			rounds = 1
@@ -359,6 +404,19 @@ func c26Main(seed uint64, n int, replay string) {
 		// two consecutive recreating reconnects of a subscription whose items use 2 and 3 TimestampsToReturn values
 		for g := 2; g <= 3; g++ {
 			cases = append(cases, &Case{ID: len(cases), Op: "c26", S: map[string]string{"kind": "reconnect"}, P: map[string]int{"session_lost": 1, "transfer_ok": 0, "republish_ok": 1, "create_ok": 1, "items_ok": 1, "groups": g, "rounds": 2}})
+		}
+		// mixed outcomes over 2..3 subscriptions: subscription 1 has an un-acknowledged notification queued and survives
+		// (transfer Good, with and without a retransmitted message), another one must be recreated
+		for _, m := range []map[string]int{
+			{"nsubs": 2, "tinvalid": 2, "republish_msgs": 1}, {"nsubs": 2, "tinvalid": 2, "republish_msgs": 0},
+			{"nsubs": 3, "tinvalid": 4, "republish_msgs": 1}, {"nsubs": 3, "tinvalid": 6, "republish_msgs": 0},
+			{"nsubs": 2, "tinvalid": 0, "republish_msgs": 1}, {"nsubs": 2, "tinvalid": 3, "republish_msgs": 0},
+		} {
+			p := map[string]int{"mixed": 1, "session_lost": 1, "republish_ok": 1, "create_ok": 1, "items_ok": 1, "groups": 1, "rounds": 1}
+			for k, v := range m {
+				p[k] = v
+			}
+			cases = append(cases, &Case{ID: len(cases), Op: "c26", S: map[string]string{"kind": "reconnect"}, P: p})
 		}
 		for i := len(cases); i < n; i++ {
 			cases = append(cases, c26Gen(r, i))
